@@ -53,6 +53,9 @@ func stagesOf(c *core.Ctx, t *gen.Node, e error, wire bool) []stage {
 	keys := sim.KeysOf(e)
 	add("unknowing", func() error { return sim.Transfer(e, []sim.Proc{{Forget: keys}}) })
 	add("unknowing-then-knowing", func() error { return sim.Transfer(e, []sim.Proc{{Forget: keys}, {}}) })
+	// a process that knows some of the types and not others (e.g. the barrier but not what it hides)
+	sub := subset(c.R, keys)
+	add("partly-unknowing", func() error { return sim.Transfer(e, []sim.Proc{{Forget: sub}}) })
 	return out
 }
 
